@@ -166,24 +166,30 @@ def showSVal : Enc.SVal → String
   | .num n => toString n
   | .bytes b => "x" ++ hexOf b
 
+def stateSuffix (d : Dec.Dec) : String := s!"@{d.cur.pendingField}/{d.cur.buffer.length}"
+
 mutual
 partial def runDOp : DOp → Dec.DecM (List String)
   | .r k f => fun d log => do
     let (d, a) ← Dec.readSingle k f d
-    return (d, log ++ [match a with | some v => "r=" ++ showSVal v | none => "r=_"])
+    -- the harness starts every target variable at a sentinel (90 / the byte 5a)
+    let v : Enc.SVal := match a with | some v => v | none => (if k.isBytes then .bytes [0x5a#8] else .num (if k == .bool then 1 else 90))
+    return (d, log ++ ["r=" ++ showSVal v ++ stateSuffix d])
   | .rr k f => fun d log => do
     let (d, xs) ← Dec.readRepeated k f d []
-    return (d, log ++ ["rr=" ++ String.intercalate "," (xs.map showSVal)])
+    return (d, log ++ ["rr=" ++ String.intercalate "," (xs.map showSVal) ++ stateSuffix d])
   | .renum f => fun d log => do
     let (d, xs) ← Dec.readRepeatedEnum f d []
-    return (d, log ++ ["re=" ++ String.intercalate "," (xs.map toString)])
+    return (d, log ++ ["re=" ++ String.intercalate "," (xs.map toString) ++ stateSuffix d])
   | .msg f ops => Dec.message f (runDOps ops)
   | .rmsg f ops => Dec.repeatedMessage f (fun d log => Dec.loop (runDOps ops) d (log ++ ["entry"]))
   | .loop ops => Dec.loop (runDOps ops)
   | .unrec mask => fun d log => do
     let (d, out) ← Dec.unrecognizedFields mask d []
-    return (d, log ++ ["u=" ++ hexOf out])
-  | .fail f => fun d log => .ok (Dec.fail d f "x", log)
+    return (d, log ++ ["u=" ++ hexOf out ++ stateSuffix d])
+  | .fail f => fun d log =>
+    let d := Dec.fail d f "x"
+    .ok (d, log ++ ["f" ++ stateSuffix d])
 
 partial def runDOps : List DOp → Dec.DecM (List String)
   | [] => fun d log => .ok (d, log)
